@@ -28,8 +28,11 @@ Record Inv (s : state) : Prop := {
   c_lead_unpub : forall i, a_ref (act s i) = Some i -> unpub_pc (a_pc (act s i)) = true ->
       it_resp (itm s i) = None /\ it_err (itm s i) = None /\ it_abandoned (itm s i) = false;
   c_lead_done : forall i, a_ref (act s i) = Some i -> a_pc (act s i) = PDone -> it_loaded (itm s i) = true;
+  (* an item past its publication point with nothing published: its leader's load panicked and the
+     deferred Finish released it *)
   c_pubd : forall i, a_ref (act s i) = Some i -> it_resp (itm s i) = None -> it_err (itm s i) = None ->
-      it_abandoned (itm s i) = false -> unpub_pc (a_pc (act s i)) = true;
+      it_abandoned (itm s i) = false -> unpub_pc (a_pc (act s i)) = false ->
+      a_out (act s i) = Some (OCrash None);
   c_foll : forall i j, a_ref (act s i) = Some j -> j <> i ->
       a_ref (act s j) = Some j /\ rkey (rq i) = rkey (rq j) /\ elig (rq i) = true /\
       foll_pc (a_pc (act s i)) = true;
@@ -53,6 +56,10 @@ Record Inv (s : state) : Prop := {
   c_out_up : forall i a, a_out (act s i) = Some (OErr (EUp a)) ->
       (a = i /\ a_ans (act s i) = Some AErrUp) \/
       (a <> i /\ a_ref (act s i) = Some a /\ it_err (itm s a) = Some (EUp a) /\ a_pc (act s i) = PDone);
+  c_out_crash : forall i, a_out (act s i) = Some (OCrash None) -> a_ans (act s i) = Some APanic;
+  c_out_crash_sh : forall i j, a_out (act s i) = Some (OCrash (Some j)) ->
+      j <> i /\ a_ref (act s i) = Some j /\ a_out (act s j) = Some (OCrash None) /\
+      it_loaded (itm s j) = true /\ a_pc (act s i) = PDone;
   c_run : forall i, run_pc (a_pc (act s i)) = true -> a_out (act s i) = None;
   c_nrun : forall i, run_pc (a_pc (act s i)) = false -> a_out (act s i) <> None;
   c_start : forall i, a_pc (act s i) = PStart -> a_ref (act s i) = None
@@ -100,6 +107,8 @@ Ltac fwd_light HI :=
   | H : a_out (act _ ?i) = Some (OWrote ?k ?d (Some ?j)) |- _ => learn (c_out_sh _ _ HI i k d j H)
   | H : a_out (act _ ?i) = Some (OErr (ECtx ?a)) |- _ => learn (c_out_ctx _ _ HI i a H)
   | H : a_out (act _ ?i) = Some (OErr (EUp ?a)) |- _ => learn (c_out_up _ _ HI i a H)
+  | H : a_out (act _ ?i) = Some (OCrash None) |- _ => learn (c_out_crash _ _ HI i H)
+  | H : a_out (act _ ?i) = Some (OCrash (Some ?j)) |- _ => learn (c_out_crash_sh _ _ HI i j H)
   | H : a_ref (act _ ?i) = Some ?i |- _ => learn (c_lead _ _ HI i H)
   | H : a_ref (act _ ?i) = Some ?j, N : ?j <> ?i |- _ => learn (c_foll _ _ HI i j H N)
   | H : a_ref (act _ ?i) = None |- _ => learn (c_noref _ _ HI i H)
